@@ -4,6 +4,7 @@
   here; the model proper never sees a string.
 -/
 import MinkModel.Pipeline
+import MinkModel.Literal
 namespace Mink
 
 structure PState where
@@ -69,8 +70,9 @@ def pConst : P Const := do
   let t ← P.next
   let some p := primOfString t | throw s!"bad const type {t}"
   let n ← P.ident
-  let v ← P.ident
-  pure ⟨n, p, v⟩
+  let w ← P.next
+  let v ← intern w
+  pure { name := n, ty := p, value := v, rangeOk := p.acceptsLiteral w.toList }
 
 def pParam : P Param := do
   let d ← P.next
@@ -252,8 +254,8 @@ def storeFacts (names : Array String) (st : Store) : List String :=
     st.symbols.consts.map (fun (c, f) => s!"sym const {nm names c} {nm names f}"))
   [loaded, topo] ++ edges ++ syms
 
-def facts (entry : Entry) (c : Case) : List String :=
-  match compile entry c.fs c.incdirs c.main with
+def facts (entry : Entry) (c : Case) (ub : Bool := false) : List String :=
+  match compile entry c.fs c.incdirs c.main ub with
   | .error e => [s!"verdict reject {e.toString}"]
   | .ok r =>
     ["verdict accept"] ++ storeFacts c.names r.store ++
